@@ -68,7 +68,7 @@ set_option maxRecDepth 100000 in
 theorem exit_code_total : Gen.errorCtors.all codeOK = true := by decide +kernel
 
 /-- the same, element-wise -/
-theorem exit_code_total' (c : ErrCtor) (hc : c ∈ Gen.errorCtors) : codeOK c = true :=
+theorem exit_code_total_mem (c : ErrCtor) (hc : c ∈ Gen.errorCtors) : codeOK c = true :=
   List.all_eq_true.mp exit_code_total c hc
 
 /-- the `128+n` row is what `NewSignalReceived` adds the signal number to -/
